@@ -16,6 +16,13 @@ from physt.histogram1d import Histogram1D  # noqa: E402
 from physt.histogram_nd import Histogram2D, HistogramND  # noqa: E402
 
 
+def _nb(binning):
+    try:
+        return [nrs(v) for v in np.asarray(binning.numpy_bins)]
+    except Exception:
+        return None
+
+
 def snapn(x) -> dict:
     if isinstance(x, Histogram1D):
         bins = [np.asarray(x.bins).reshape(-1, 2)]
@@ -33,6 +40,7 @@ def snapn(x) -> dict:
         "adaptive": bool(x.is_adaptive()),
         "_class": type(x).__name__, "_freq_dtype": str(f.dtype), "_err2_dtype": str(e.dtype),
         "_shape_ok": f.shape == e.shape == tuple(b.shape[0] for b in bins),
+        "_numpy_bins": [_nb(b) for b in ([x.binning] if isinstance(x, Histogram1D) else x.binnings)],
     }
 
 
